@@ -60,6 +60,14 @@ func (p *Prog) DropRaw(file string) bool {
 	for _, f := range p.Files {
 		if f.Name == file && (len(f.Decls) > 0 || len(f.Extern) > 0) && len(f.Extern) > 0 {
 			f.Decls, f.RefDecls, f.Extern, f.Imports = nil, nil, nil, nil
+			// the plain companion file of a template file refers to its declarations
+			if comp := map[string]string{"gen_types.go": "plain_rotate.go", "gen_opt.go": "plain_opt.go", "a_gen_opt.go": "plain_opt.go"}[file]; comp != "" {
+				for _, c := range p.Files {
+					if c.Name == comp {
+						c.Decls, c.RefDecls, c.Extern, c.Imports = nil, nil, nil, nil
+					}
+				}
+			}
 			return true
 		}
 	}
